@@ -1,6 +1,6 @@
 (* Extraction of the C09 record-level model (Model/SubFieldRec.v: derived views, whole-dimension assignment with
    growth, copy_fields_from, histories; worlds of several objects over shared memory;
-   read routes) to OCaml for the correspondence check.
+   read routes; the name lookup on layouts with other fields) to OCaml for the correspondence check.
    ExtrOcamlBasic only; Z/N/positive/nat stay the extracted inductive datatypes. *)
 Require Extraction.
 Require Import ExtrOcamlBasic.
@@ -10,4 +10,4 @@ Extraction Language OCaml.
 Extraction "../ocaml/c09/model.ml"
   Z.add Z.mul Z.sub Z.div_eucl Z.compare Z.of_nat Z.to_nat
   run step rec_read fmt_cols fmt_names find_sf view_chain wrun wstep obj_read obj_fmt
-  sf_route rec_route route_vals.
+  sf_route rec_route route_vals resolve canon.
